@@ -9,6 +9,13 @@ From QSX Require Import IO.Num.
 Import ListNotations.
 Local Open Scope Z_scope.
 
+Section Strict.
+Variable strict : bool.     (* false: the code as found; true: with numreader_div_zero.diff *)
+Local Notation scan := (scan strict).
+Local Notation accept := (accept strict).
+Local Notation conclude := (conclude strict).
+Local Notation read_num := (read_num_gen strict).
+
 (* ---- totality / progress ---------------------------------------------------- *)
 
 Lemma scan_bounds s : forall st n, (n <= snd (scan s st n) <= n + List.length s)%nat.
@@ -19,18 +26,18 @@ Proof.
   specialize (IH st' (S n)). lia.
 Qed.
 
-Lemma conclude_count st n : snd (conclude st n) = n.
+Lemma conclude_count st n : (snd (conclude st n) <= n)%nat.
 Proof.
-  unfold conclude. destruct n; [reflexivity|].
-  match goal with |- context [if ?b then _ else _] => destruct b end; reflexivity.
+  unfold Num.conclude. destruct n; [simpl; lia|].
+  match goal with |- context [if ?b then _ else _] => destruct b end; [destruct strict|]; simpl; lia.
 Qed.
 
 Theorem read_num_total s : exists r n, read_num s = (r, n) /\ (n <= List.length s)%nat.
 Proof.
-  unfold read_num. pose proof (scan_bounds s st_init O) as B.
+  unfold read_num_gen. pose proof (scan_bounds s st_init O) as B.
   destruct (scan s st_init O) as [[st|f] n]; simpl in B.
-  - pose proof (conclude_count st n) as C. destruct (conclude st n) as [r k]. simpl in C. subst k.
-    exists r, n. split; [reflexivity|lia].
+  - pose proof (conclude_count st n) as C. destruct (conclude st n) as [r k]. simpl in C.
+    exists r, k. split; [reflexivity|lia].
   - exists (NFault f), n. split; [reflexivity|lia].
 Qed.
 
@@ -45,26 +52,17 @@ Proof.
 Qed.
 
 (* the refutations of "no input faults" *)
-Example no_fault_refuted_div_zero :
-  read_num (list_ascii_of_string "1/0") = (NFault DivZero, 3%nat).
-Proof. vm_compute. reflexivity. Qed.
-Example no_fault_refuted_bare_slash :
-  read_num (list_ascii_of_string "/") = (NFault DivZero, 1%nat).
-Proof. vm_compute. reflexivity. Qed.
-Example no_fault_refuted_int_overflow :
-  read_num (list_ascii_of_string "1e99999999999") = (NFault IntOverflow, 12%nat).
-Proof. vm_compute. reflexivity. Qed.
 
 (* ---- characters -------------------------------------------------------------- *)
 
 Lemma accept_number_char st c : accept st c = true -> number_char c = true.
 Proof.
-  unfold accept, number_char. intros H.
+  unfold Num.accept, number_char. intros H.
   destruct (is_digit c); [reflexivity|]. simpl in *.
   destruct (Ascii.eqb c "."); [reflexivity|]. rewrite andb_false_r in H. simpl in *.
   destruct (is_e c); [reflexivity|]. rewrite andb_false_r in H. simpl in *.
   destruct (is_pm c); [reflexivity|]. rewrite !andb_false_r in H. simpl in *.
-  destruct (Ascii.eqb c "/"); [reflexivity|]. rewrite andb_false_r in H. discriminate.
+  destruct (Ascii.eqb c "/"); [reflexivity|]. rewrite !andb_false_r in H. discriminate.
 Qed.
 
 Lemma scan_stops rest st n : stops rest -> scan rest st n = (Run st, n).
@@ -127,7 +125,7 @@ Lemma mant_one ch k s adot aexp aes asg adiv l sg esg hd c v0 v1 n :
   scan s (mk_nst adot true aes false adiv l sg esg true c
             (if c then v0 else push_digit adot v0 k) (if c then push_digit adot v1 k else v1)) (S n).
 Proof.
-  intros D K H. cbn [scan]. unfold accept. rewrite D. cbn [orb]. unfold step. rewrite D.
+  intros D K H. cbn [Num.scan]. unfold Num.accept. rewrite D. cbn [orb]. unfold step. rewrite D.
   cbn [a_dot a_exp a_exp_sgn a_sgn a_div have_dig l_exp]. rewrite H, K.
   destruct c; reflexivity.
 Qed.
@@ -157,7 +155,7 @@ Lemma exp_one ch k s adot aes asg adiv l sg esg c v0 v1 n :
   scan (ch :: s) (mk_nst adot false aes asg adiv l sg esg true c v0 v1) n =
   scan s (mk_nst adot false false false adiv (10 * l + k) sg esg true c v0 v1) (S n).
 Proof.
-  intros D K L B K0. cbn [scan]. unfold accept. rewrite D. cbn [orb]. unfold step. rewrite D.
+  intros D K L B K0. cbn [Num.scan]. unfold Num.accept. rewrite D. cbn [orb]. unfold step. rewrite D.
   cbn [a_dot a_exp a_exp_sgn a_sgn a_div have_dig l_exp orb negb].
   replace (int_max <? 10 * l) with false by (symmetry; apply Z.ltb_ge; unfold int_max; lia).
   replace (int_max <? 10 * l + code ch) with false by (symmetry; apply Z.ltb_ge; unfold int_max; lia).
@@ -221,7 +219,7 @@ Lemma pm_one (neg : bool) s adot aexp aes asg adiv l sg esg hd c v0 v1 n :
   scan s (mk_nst adot aexp false false adiv l (if neg then (if asg then true else sg) else sg)
             (if neg then (if asg then esg else true) else esg) hd c v0 v1) (S n).
 Proof.
-  intros H. destruct neg; cbn [scan]; unfold accept, step; charfacts;
+  intros H. destruct neg; cbn [Num.scan]; unfold Num.accept, step; charfacts;
     cbn [a_dot a_exp a_exp_sgn a_sgn a_div have_dig l_exp sgn exp_sgn cn q0 q1];
     rewrite ?andb_false_r, ?andb_true_r; cbn [orb];
     destruct asg, aes; try discriminate; rewrite ?orb_true_r; reflexivity.
@@ -230,23 +228,23 @@ Qed.
 Lemma dot_one s aexp aes asg adiv l sg esg hd c v0 v1 n :
   scan ("."%char :: s) (mk_nst true aexp aes asg adiv l sg esg hd c v0 v1) n =
   scan s (mk_nst false aexp aes false adiv l sg esg hd c v0 v1) (S n).
-Proof. cbn [scan]; unfold accept, step; charfacts; cbn [a_dot a_exp a_exp_sgn a_sgn a_div andb orb]. reflexivity. Qed.
+Proof. cbn [Num.scan]; unfold Num.accept, step; charfacts; cbn [a_dot a_exp a_exp_sgn a_sgn a_div andb orb]. reflexivity. Qed.
 
 Lemma e_one (up : bool) s adot aes asg adiv l sg esg hd c v0 v1 n :
   scan ((if up then "E"%char else "e"%char) :: s) (mk_nst adot true aes asg adiv l sg esg hd c v0 v1) n =
   scan s (mk_nst adot false true false adiv l sg esg hd c v0 v1) (S n).
 Proof.
-  destruct up; cbn [scan]; unfold accept, step; charfacts;
+  destruct up; cbn [Num.scan]; unfold Num.accept, step; charfacts;
     cbn [a_dot a_exp a_exp_sgn a_sgn a_div andb orb]; rewrite ?andb_false_r; cbn [orb]; reflexivity.
 Qed.
 
-Lemma slash_one s adot aexp aes asg l sg esg hd c v0 v1 n :
-  scan ("/"%char :: s) (mk_nst adot aexp aes asg true l sg esg hd c v0 v1) n =
+Lemma slash_one s adot aexp aes asg l sg esg c v0 v1 n :
+  scan ("/"%char :: s) (mk_nst adot aexp aes asg true l sg esg true c v0 v1) n =
   scan s (mk_nst true false false true false 0 false false false true (finish v0 l esg sg) (0, 1%positive)) (S n).
 Proof.
-  cbn [scan]; unfold accept, step; charfacts;
-    cbn [a_dot a_exp a_exp_sgn a_sgn a_div andb orb l_exp sgn exp_sgn q0]; rewrite ?andb_false_r; cbn [orb].
-  rewrite ?orb_true_r. reflexivity.
+  cbn [Num.scan]; unfold Num.accept, step; charfacts;
+    cbn [a_dot a_exp a_exp_sgn a_sgn a_div have_dig andb orb l_exp sgn exp_sgn q0]; rewrite ?andb_false_r; cbn [orb].
+  rewrite ?orb_true_r, ?andb_true_r. cbn [andb orb]. rewrite ?orb_true_r. reflexivity.
 Qed.
 
 (* ---- a mantissa, phase 1: sign, integer digits, fraction -------------------------- *)
@@ -323,7 +321,7 @@ Lemma scan_phase2 ex rest adot adiv sg c v0 v1 n :
   exists st', scan (exp_chars ex ++ rest) (mk_nst adot true false false adiv 0 sg false true c v0 v1) n =
               scan rest st' (n + List.length (exp_chars ex)) /\
     cn st' = c /\ a_div st' = adiv /\ q0 st' = v0 /\ q1 st' = v1 /\ sgn st' = sg /\
-    (if exp_sgn st' then - l_exp st' else l_exp st') = expv ex.
+    (if exp_sgn st' then - l_exp st' else l_exp st') = expv ex /\ have_dig st' = true.
 Proof.
   intros OK. destruct ex as [[[up s] ds]|]; cbn [exp_chars expv app List.length].
   2:{ eexists. split; [replace (n + 0)%nat with n by lia; reflexivity|]. cbn. repeat split; reflexivity. }
@@ -413,7 +411,7 @@ Qed.
 Lemma scan_mant m rest c vo n :
   mant_ok m ->
   exists st', scan (render_mant m ++ rest) (start c vo) n = scan rest st' (n + List.length (render_mant m)) /\
-    cn st' = c /\ a_div st' = negb c /\ (if c then q0 st' else q1 st') = vo /\
+    cn st' = c /\ a_div st' = negb c /\ have_dig st' = true /\ (if c then q0 st' else q1 st') = vo /\
     qval (finish (cur st') (l_exp st') (exp_sgn st') (sgn st')) == denote_mant m /\
     (mant_nz m -> fst (finish (cur st') (l_exp st') (exp_sgn st') (sgn st')) <> 0%Z).
 Proof.
@@ -424,9 +422,9 @@ Proof.
   destruct (scan_phase2 ex rest (match fr with None => true | _ => false end) (negb c) (sign_neg sg) c
               (if c then vo else mant_val di fr) (if c then mant_val di fr else vo)
               (n + List.length (sign_chars sg ++ chars_of_uint di ++ frac_chars fr)) OK2)
-    as (st' & SC & Hc & Hd & H0 & H1 & Hs & He).
+    as (st' & SC & Hc & Hd & H0 & H1 & Hs & He & Hh).
   exists st'. split; [rewrite SC; f_equal; rewrite !app_length; lia|].
-  split; [exact Hc|]. split; [exact Hd|].
+  split; [exact Hc|]. split; [exact Hd|]. split; [exact Hh|].
   assert (CUR : cur st' = mant_val di fr) by (unfold cur; rewrite Hc, H0, H1; destruct c; reflexivity).
   split; [rewrite H0, H1; destruct c; reflexivity|].
   rewrite CUR, Hs. destruct (mant_val di fr) as [N D] eqn:EV.
@@ -451,18 +449,18 @@ Theorem read_denotes l rest :
   exists q, read_num (render_lit l ++ rest) = (Val q, List.length (render_lit l)) /\ q == denote l.
 Proof.
   intros [OKn OKd] ST. destruct l as [mn md]. cbn [l_num l_den] in *.
-  unfold read_num, render_lit, denote. cbn [l_num l_den]. rewrite start_false.
+  unfold read_num_gen, render_lit, denote. cbn [l_num l_den]. rewrite start_false.
   destruct md as [d|].
   - destruct OKd as [OKd NZ]. rewrite <- app_assoc. cbn [app].
     destruct (scan_mant mn ("/"%char :: render_mant d ++ rest) false (1%Z, 1%positive) O OKn)
-      as (s1 & SC1 & C1 & D1 & O1 & V1 & _).
+      as (s1 & SC1 & C1 & D1 & Hh1 & O1 & V1 & _).
     rewrite SC1. destruct s1 as [adot aexp aes asg adiv le sg esg hd c v0 v1].
-    cbn [cn a_div q0 q1 negb] in C1, D1, O1. subst c adiv.
+    cbn [cn a_div q0 q1 negb have_dig] in C1, D1, O1, Hh1. subst c adiv hd.
     rewrite slash_one.
     change (mk_nst true false false true false 0 false false false true (finish v0 le esg sg) (0%Z, 1%positive))
       with (start true (finish v0 le esg sg)).
     destruct (scan_mant d rest true (finish v0 le esg sg) (S (0 + List.length (render_mant mn))) OKd)
-      as (s2 & SC2 & C2 & D2 & O2 & V2 & N2).
+      as (s2 & SC2 & C2 & D2 & Hh2 & O2 & V2 & N2).
     rewrite SC2, (scan_stops rest s2 _ ST). unfold conclude.
     replace (S (0 + List.length (render_mant mn)) + List.length (render_mant d))%nat
       with (S (List.length (render_mant mn) + List.length (render_mant d))) by lia.
@@ -473,7 +471,7 @@ Proof.
     + f_equal. rewrite app_length. cbn [List.length]. lia.
     + rewrite O2, V2. cbn [cur cn q0] in V1. rewrite V1. reflexivity.
   - rewrite app_nil_r.
-    destruct (scan_mant mn rest false (1%Z, 1%positive) O OKn) as (s1 & SC1 & C1 & D1 & O1 & V1 & _).
+    destruct (scan_mant mn rest false (1%Z, 1%positive) O OKn) as (s1 & SC1 & C1 & D1 & Hh1 & O1 & V1 & _).
     rewrite SC1, (scan_stops rest s1 _ ST). unfold conclude.
     assert (LEN : (0 < List.length (render_mant mn))%nat).
     { destruct OKn as [[H|H] _]; unfold render_mant; rewrite !app_length.
@@ -554,6 +552,50 @@ Proof.
   destruct (read_denotes (lit_of q) rest (lit_of_ok q) ST) as (q' & R & E).
   exists q'. split; [exact R|]. rewrite E. apply denote_lit_of.
 Qed.
+
+End Strict.
+
+(* the refutations of "no input faults" for the code as found ... *)
+Example no_fault_refuted_div_zero :
+  read_num (list_ascii_of_string "1/0") = (NFault DivZero, 3%nat).
+Proof. vm_compute. reflexivity. Qed.
+Example no_fault_refuted_bare_slash :
+  read_num (list_ascii_of_string "/") = (NFault DivZero, 1%nat).
+Proof. vm_compute. reflexivity. Qed.
+Example no_fault_refuted_int_overflow :
+  read_num (list_ascii_of_string "1e99999999999") = (NFault IntOverflow, 12%nat).
+Proof. vm_compute. reflexivity. Qed.
+(* a valid LP name that the scanner takes for a number: "/1abc" is read as 0 with 2 bytes consumed *)
+Example leading_slash_is_a_number :
+  read_num (list_ascii_of_string "/1abc") = (Val ((0 # 1) / (1 # 1)), 2%nat).
+Proof. vm_compute. reflexivity. Qed.
+
+(* ... and their absence after the patch: no byte string divides by zero, "/..." is not a number *)
+Lemma step_fault st c f : step st c = inr f -> f = IntOverflow.
+Proof.
+  unfold step. repeat match goal with |- context [if ?b then _ else _] => destruct b end; intros H; inversion H; reflexivity.
+Qed.
+
+Lemma scan_fault strict s : forall st n f k, scan strict s st n = (Flt f, k) -> f = IntOverflow.
+Proof.
+  induction s as [|c s IH]; intros st n f k H; simpl in H; [discriminate|].
+  destruct (accept strict st c); [|discriminate].
+  destruct (step st c) as [st'|f'] eqn:E; [eauto|]. inversion H; subst. eapply step_fault; eauto.
+Qed.
+
+Theorem fixed_no_div_zero s : fst (read_num_fixed s) <> NFault DivZero.
+Proof.
+  unfold read_num_fixed, read_num_gen. destruct (scan true s st_init 0) as [[st|f] n] eqn:E.
+  - unfold conclude. destruct n; [discriminate|].
+    match goal with |- context [if ?b then _ else _] => destruct b end; discriminate.
+  - apply scan_fault in E. subst f. discriminate.
+Qed.
+
+Example fixed_examples :
+  read_num_fixed (list_ascii_of_string "1/0") = (Val 0, 0%nat) /\
+  read_num_fixed (list_ascii_of_string "/1abc") = (Val 0, 0%nat) /\
+  read_num_fixed (list_ascii_of_string "-3/4x") = (Val ((-3 # 1) / (4 # 1)), 4%nat).
+Proof. vm_compute. repeat split; reflexivity. Qed.
 
 (* the stdlib printer agrees with chars_of_uint (so print_num is "the usual decimal notation") *)
 Lemma chars_of_uint_stdlib d :
